@@ -131,3 +131,17 @@ Definition top_level_default (g : config) (req : request) (k : N) : option (opti
   else if k =? 119 then Some (Some (flat_map domain_bytes (g_search g)))
   else if k =? 114 then Some (g_portal g)
   else None.
+
+(* defaults derived from the receiving interface: "interface MTU and router,
+   netmask and broadcast of the matched subnet" (the `addresses` prefix the
+   request was received on) *)
+Definition interface_default (g : config) (req : request) (k : N) : option (option (list N)) :=
+  match receiving_prefix (r_serverip req) (g_addresses g) with
+  | Some (net, len) =>
+    if k =? 1 then Some (Some (be32 (netmask len)))
+    else if k =? 28 then Some (Some (be32 (N.lor net (U32MAX - netmask len))))
+    else if k =? 26 then option_map (fun m => Some (be16 (m mod 65536))) (r_mtu req)
+    else if k =? 3 then option_map (fun r => Some (be32 r)) (r_router req)
+    else None
+  | None => None
+  end.
